@@ -2,10 +2,7 @@
   C04 — essential object invariants, every object kind × key kind.
   Executable model, CORE LEAN ONLY (linked into model_c04).
 
-  Part 1  DefineOwn   : baseObject._defineOwnProperty (object.go:650) transcribed line by line, in two variants:
-                        `cur`   = the code as it stands in /repo (three kind-change defects, see design/C04.md),
-                        `fixed` = the code after fixes/C04-defineOwnProperty-kind-change.diff;
-                        and the spec's ValidateAndApplyPropertyDescriptor (ECMA-262 10.1.6.3).
+  Part 1  DefineOwn   : in ModelDefine.lean — baseObject._defineOwnProperty (object.go:650) and ValidateAndApplyPropertyDescriptor.
   Part 2  SetPath     : setOwn*/_setForeign*/setForeign*/Object.set* transcribed as THREE separate copies, and
                         OrdinarySet (10.1.9.1/2) with Receiver.
   Part 3  PropOrder   : propNames / lastSortedPropLen / idxPropCount / _delete / ensurePropOrder / fixPropOrder.
